@@ -737,6 +737,7 @@ class C17:
                 if suite == "toy" and n == 2: stats["recomputations"] += length_distinguisher(S, x, tier)
                 if suite == "toy" and n == 2: stats["recomputations"] += many_attribute_proofs(S, tier)
                 if suite == "toy" and n == 3: stats["recomputations"] += equal_value_proofs(S, x)
+                if suite == "toy" and n == 3: stats["recomputations"] += unordered_trusted_issuance(S, x)
                 subsets = list(Q.all_subsets(n, nonempty=True)) if (suite == "toy" and tier != "quick") else [[0], list(range(n))]
                 for U in subsets:
                   for trusted in (False, True):
@@ -815,6 +816,17 @@ class C18:
                         rf = S.run(["Q,%s,%s,%s,%s clcpk %s N 1" % (hp, hp, hp, hp, suite)], expect="ok", label="cpk-forced-equal-primes")[0]
                         if rf.status == "OK" and math.isqrt(rf.zl(0)[0]) ** 2 == rf.zl(0)[0]:
                             P.fail(S, "cpk-structure", "the own modulus of the commitment key is a square when the prime search returns the same prime twice", [str(rf.zl(0)[0])])
+                if k == 0 and suite in ("toy", "toy2"):
+                    # the exponent draw of a commitment-key base forced to 0 (g = h^0 = 1): the base must be drawn again
+                    r0 = S.run(["clcpk %s %d 2" % (suite, N)], expect="ok", label="triv:cpk")[0]
+                    dr0 = parse_draws(r0) if r0.status == "OK" else []
+                    nums = [v for kd, prm, v in dr0 if kd == "number"]
+                    if len(nums) >= 2:
+                        for pos in range(1, len(nums)):
+                            q_ = list(nums); q_[pos] = 0
+                            rz = S.run(["Q,%s clcpk %s %d 2" % (",".join(str(v).encode().hex() for v in q_[:pos + 1]), suite, N)], expect="ok", label="cpk-forced-zero-exponent")[0]
+                            if rz.status == "OK" and any(v <= 1 for v in rz.zl(0)[1:]):
+                                P.fail(S, "cpk-structure", "a commitment-key element equals 1 (or 0) after an exponent draw of 0", [str(N)])
                 nb = 1 + k % 3
                 rb = S.run(["clbases %s %d %d" % (suite, N, nb)], expect="ok", label="bases")[0]
                 rc = S.run(["clcpk %s %d %d" % (suite, N, nb)], expect="ok", label="cpk(issuer modulus)")[0]
@@ -891,6 +903,24 @@ def repeated_hidden_index_proofs(S, x, sig, msgs):
         S.run([spokver_line(x, doc, msgs, U)], label="proof_verify(repeated hidden index)")
         secrets = [("m_%d" % i, msgs[i]) for i in sorted(set(U))] + [("e", sig[0]), ("s", sig[1]), ("v", sig[2])]
         q_, r_ = masking_attack(S, doc, [("c(spok)", clj.get(sp, ("challenge",)))], secrets, "spok[repeated hidden index %s]" % U); cnt += q_
+    return cnt
+
+def unordered_trusted_issuance(S, x):
+    """issuance with a trusted-party commitment and the hidden positions listed in a NON-ascending order ([2, 0], [0, 2, 1]): the proof verifies and
+    every response stays masked (challenge of the trusted-party proof, challenge of the multi-secret proof)"""
+    Q = _q(); rng = S.rng; cnt = 0
+    if len(x.bases) < 3: return 0
+    N = x.pk[0]; b = x.pk[1]
+    for U in ([2, 0], [0, 2, 1], [1, 0]):
+        msgs = [Q.rmsg(rng) for _ in range(3)]
+        f = issue(S, x, msgs, U, True, label="issue(unordered hidden positions)")
+        if not f: continue
+        S.run([zkver_line(x, f)], expect=true_, label="verify_proof(generate_proof):unordered-hidden-positions")
+        zk = f["zk"]["CL03"]; pm = zk["proof_commited_msgs"]
+        chal = [("c(multi-secret)", sha_int("".join(str(x.bases[i]) for i in U) + str(b) + str(f["C"][0]) + str(clj.get(pm, ("t",)))))]
+        if zk["proof_C_Ctrusted"]: chal.append(("c(trusted)", clj.get(zk["proof_C_Ctrusted"], ("challenge",))))
+        secrets = [("m_%d" % i, msgs[i]) for i in U] + [("r", f["C"][1])] + ([("r_trusted", f["Ct"][1])] if f["Ct"] else [])
+        q_, r_ = masking_attack(S, f["zk"], chal, secrets, "zkpok[hidden positions %s]" % U); cnt += q_
     return cnt
 
 def equal_value_proofs(S, x):
@@ -1003,6 +1033,7 @@ class C19:
                 sig = Q.sign(S, x, msgs)
                 if suite == "toy" and sig is not None: stats["quotients"] += repeated_hidden_index_proofs(S, x, sig, msgs)
                 if suite == "toy" and n == 3: stats["quotients"] += equal_value_proofs(S, x)
+                if suite == "toy" and n == 3: stats["quotients"] += unordered_trusted_issuance(S, x)
                 if sig is not None:
                     # NOTHING hidden: the responses about e, s, v and the commitment randomness are masked all the same
                     r0 = S.run([spokgen_line(x, sig, msgs, [])], expect="ok", label="triv:proof_gen(nothing hidden)")[0]
